@@ -117,8 +117,12 @@ def ev_step(e, h=0):
         s['bs'] = bound(e['bs'])
         s['be'] = bound(e['be'])
         s['v'] = 0
-    elif op in ('iter', 'iter_mut'):
+    elif op in ('iter', 'iter_mut', 'into_iter'):
         s['v'] = 0
+    elif op == 'clone':
+        s['h2'] = 2
+    elif op == 'clone_from':
+        s['h2'] = 1
     elif op.startswith('v_'):
         s['v'] = 0
         del s['h']
@@ -139,6 +143,7 @@ def tags_of(raw):
         'fill': 'fill', 'fill_spare': 'fill', 'fill_with': 'fill', 'fill_spare_with': 'fill',
         'extend': 'extend', 'extend_from_slice': 'extend', 'from_array': 'ctor', 'from_iter': 'ctor',
         'drain': 'drain', 'iter': 'iter', 'iter_mut': 'iter', 'range': 'iter', 'range_mut': 'iter',
+        'clone': 'conv', 'clone_from': 'conv', 'to_vec': 'conv', 'into_iter': 'conv',
     }.get(first, 'access')
     t.add(fam)
     for e in evs:
@@ -167,6 +172,15 @@ def build(raw, sid, route='back', poison=None, observe=True):
     steps = []
     if 'ctor' not in tags:
         steps += layout_steps(n, lay['start'], lay['size'], route)
+        if raw['evs'][0]['op'] == 'clone_from':
+            src = lay.get('src', {'start': 0, 'size': 0})
+            s2 = layout_steps(n, src['start'], src['size'], route, h=1)
+            # payload pattern of the source continues that of the destination (L1: PayloadOf(id) = id % 3)
+            k = 0
+            for st in s2[len(s2) - src['size']:]:
+                st['val'] = (lay['size'] + k + 1) % 3
+                k += 1
+            steps += s2
         if poison == 'live':
             steps.append({"op": "mk", "val": 1})
         if poison:
@@ -174,7 +188,14 @@ def build(raw, sid, route='back', poison=None, observe=True):
     for e in raw['evs']:
         steps.append(ev_step(e))
     last = raw['evs'][-1]['op']
-    alive = last not in ('drop_buf',) and not ('ctor' in tags and raw['evs'][-1]['unw'])
+    alive = last not in ('drop_buf',) and not ('ctor' in tags and raw['evs'][-1]['unw']) and raw['evs'][0]['op'] != 'into_iter'
+    if raw['evs'][0]['op'] in ('clone', 'clone_from') and not raw['evs'][0]['unw']:
+        # independence of ownership: drop one side first, then look at the other
+        if raw['evs'][0]['op'] == 'clone':
+            steps += [{"op": "observe", "h": 2}, {"op": "drop_buf", "h": 0}, {"op": "observe", "h": 2}, {"op": "pop_front", "h": 2}]
+        else:
+            steps += [{"op": "observe", "h": 0}, {"op": "drop_buf", "h": 1}, {"op": "observe", "h": 0}, {"op": "pop_back", "h": 0}]
+        alive = False
     if alive:
         if 'fault_drop' in tags or 'fault_user' in tags:
             steps += FOLLOW_FAULT
@@ -182,7 +203,7 @@ def build(raw, sid, route='back', poison=None, observe=True):
             steps += FOLLOW_FORGET
         elif observe and ('iter' not in tags) and ('drain' not in tags or last in ('v_drop',)):
             steps.append({"op": "observe"})
-    return {"id": sid, "n": n, "ty": "t", "tags": sorted(tags), "steps": steps,
+    return {"id": sid, "n": n, "ty": "t", "tags": sorted(tags), "steps": steps, "first_op": raw['evs'][0]['op'],
             "pred": {"start": lay['start'], "size": lay['size']}}
 
 
@@ -242,3 +263,83 @@ def io_random(rnd, n, sid, fams, length):
         else:
             steps.append({"op": "poison", "acc": rnd.choice(["00", "ff", "5a"])})
     return {"id": sid, "n": n, "ty": "b", "tags": ["io", "random"], "steps": steps}
+
+
+# ------------------------------------------------------------------------------------------------
+# observers over two buffers (C13): pairs enumerated by TLC from spec/Observers.tla
+
+def obs_raw(n, m, force=False):
+    key = core.sha(core.spec_hash(['Observers.tla', 'Observers.cfg.tmpl']), n, m)
+    d = core.ensure(os.path.join(OUT, 'scen'))
+    raw = os.path.join(d, 'obs_%d_%d_%s.ndjson' % (n, m, key))
+    meta = raw + '.meta.json'
+    if os.path.exists(raw) and os.path.exists(meta) and not force:
+        return raw, json.load(open(meta))
+    cfg = os.path.join(SPEC, '_gen_obs_%d_%d_%d.cfg' % (n, m, os.getpid()))
+    t = open(os.path.join(SPEC, 'Observers.cfg.tmpl')).read().replace('@N@', str(n)).replace('@M@', str(m))
+    open(cfg, 'w').write(t)
+    md = os.path.join(OUT, 'work', 'md_obs_%d_%d_%d' % (n, m, os.getpid()))
+    t0 = time.time()
+    try:
+        rc, out = core.java_tlc(['-workers', '1', '-metadir', md, '-cleanup', '-noGenerateSpecTE', '-config',
+                                 os.path.basename(cfg), 'Observers.tla'], heap='4g', timeout=3600)
+    finally:
+        os.remove(cfg)
+    st = core.tlc_stats(out)
+    if st is None or 'No error has been found' not in out:
+        raise ToolError('TLC failed on Observers.tla N=%d M=%d:\n%s' % (n, m, out[-3000:]))
+    lines = []
+    for line in out.splitlines():
+        mm = SCN_RE.match(line)
+        if mm:
+            lines.append(mm.group(1).encode().decode('unicode_escape'))
+    stats = {'n': n, 'm': m, 'states': st['distinct'], 'transitions': st['generated'], 'scenarios': len(lines),
+             'wall_s': round(time.time() - t0, 1)}
+    with open(raw + '.tmp', 'w') as f:
+        f.write('\n'.join(lines) + ('\n' if lines else ''))
+    os.replace(raw + '.tmp', raw)
+    json.dump(stats, open(meta, 'w'))
+    return raw, stats
+
+
+def layout_vals_steps(cap, start, vals, h, tag_cap):
+    st = [{"op": "new", "h": h}]
+    if cap > 0:
+        for _ in range(start):
+            st.append({"op": "push_back", "h": h, "val": 0})
+            st.append({"op": "pop_front", "h": h})
+        if len(st) > 1:
+            st.append({"op": "caller_drop"})
+    for v in vals:
+        st.append({"op": "push_back", "h": h, "val": v})
+    if tag_cap is not None:
+        for s in st:
+            s["cap"] = tag_cap
+    return st
+
+
+DEBUG_FORMS = ["plain", "alt", "w5", "lw4", "z3", "plus", "hex", "HEX", "althex", "prec", "fillw"]
+SLICE_FORMS = ["slice", "ref_slice", "mut_slice", "array", "ref_array", "mut_array"]
+
+
+def obs_build(pair, sid, k):
+    a, b = pair['a'], pair['b']
+    n, m = a['cap'], b['cap']
+    steps = layout_vals_steps(n, a['start'], a['vals'], 0, None)
+    steps += layout_vals_steps(m, b['start'], b['vals'], 1, m if m != n else None)
+    x = {"h": 0, "h2": 1}
+    if m != n:
+        x["cap2"] = m
+    for op in ("eq", "ne", "partial_cmp", "lt", "le", "gt", "ge"):
+        steps.append(dict(x, op=op))
+    if m == n:
+        steps.append({"op": "cmp", "h": 0, "h2": 1})
+        steps.append({"op": "hash", "h": 0, "h2": 1})
+    else:
+        steps.append({"op": "hash", "h": 0})
+    for j in range(2):
+        steps.append({"op": "eq_slice", "h": 0, "acc": SLICE_FORMS[(k + 3 * j) % 6], "vals": b['vals']})
+    steps.append({"op": "eq_slice", "h": 0, "acc": SLICE_FORMS[(k + 1) % 6], "vals": a['vals']})
+    steps.append({"op": "debug", "h": 0, "acc": DEBUG_FORMS[k % len(DEBUG_FORMS)]})
+    steps.append({"op": "debug", "h": 0, "acc": DEBUG_FORMS[(k + 5) % len(DEBUG_FORMS)]})
+    return {"id": sid, "n": n, "ty": "t", "tags": ["observers", "N%dM%d" % (n, m)], "steps": steps}
